@@ -65,7 +65,9 @@ def _segments(D):
         u = D.UDPListener('@I@', '@D@', ['tcp://1'], _Log(), startup_broadcast=False)
         prefix = u.firmware
         u.firmware = '@F@'
-        text = u._getMessage(77777).decode('utf-8')
+        text = u._getMessage(77777)
+        if not isinstance(text, str):
+            text = text.decode('utf-8')
     finally:
         D.socket, D.get_version = saved
     segs = []
